@@ -13,6 +13,7 @@ CONSTANTS
   PruneCache = TRUE
   CapPending = TRUE
   MaxHist = 7
+  WithdrawOnExpiry = TRUE
   EraseOnLookup = FALSE
 INVARIANTS C01_Reads C02_StoreWindow C03_Derived C05_Clean C05_Once
 VIEW View
